@@ -68,65 +68,128 @@ func ruleR121(c *Ctx) {
 		c.Check(okClose, key, run.Pos(), "the tokenizer goroutine closes the token channel on every exit", "the tokenizer goroutine can return without closing the token channel: the parser waits for a token forever (deadlock)")
 	}
 
-	// (2) Parse: the statement behind the start of the tokenizer is a deferred blocking drain
-	key = "parser2.Parser.Parse#tokenizer-released"
-	var startStmt ast.Stmt
-	var tokVar types.Object
-	for _, s := range parse.Body.List {
-		as, ok := s.(*ast.AssignStmt)
-		if !ok || len(as.Lhs) != 1 || len(as.Rhs) != 1 {
+	// (2) every function that owns a started tokenizer (it calls Start, or a factory that returns a started tokenizer, and
+	// does not hand the tokenizer to its own caller) defers a blocking drain directly behind the creation
+	isTokPtr := func(t types.Type) bool { return isNamed(t, modPath, "Tokenizer") }
+	factories := map[*types.Func]bool{}
+	var allDecls []*ast.FuncDecl
+	for _, f := range root.Syntax {
+		for _, d := range f.Decls {
+			if fd, ok := d.(*ast.FuncDecl); ok && fd.Body != nil {
+				allDecls = append(allDecls, fd)
+			}
+		}
+	}
+	creates := func(n ast.Node) bool {
+		return containsNode(n, func(y ast.Node) bool {
+			call, ok := y.(*ast.CallExpr)
+			if !ok {
+				return false
+			}
+			if isCallTo(info, call, start) {
+				return true
+			}
+			cal := Callee(info, call)
+			return cal != nil && factories[cal]
+		})
+	}
+	returnsTok := func(fd *ast.FuncDecl) bool {
+		if fd.Type.Results == nil {
+			return false
+		}
+		for _, r := range fd.Type.Results.List {
+			if isTokPtr(info.TypeOf(r.Type)) {
+				return true
+			}
+		}
+		return false
+	}
+	for changed := true; changed; {
+		changed = false
+		for _, fd := range allDecls {
+			obj, _ := info.Defs[fd.Name].(*types.Func)
+			if obj == nil || factories[obj] || obj == start {
+				continue
+			}
+			if returnsTok(fd) && creates(fd.Body) {
+				factories[obj] = true
+				changed = true
+			}
+		}
+	}
+	nOwners := 0
+	for _, fd := range allDecls {
+		obj, _ := info.Defs[fd.Name].(*types.Func)
+		if obj == nil || factories[obj] || obj == start || !creates(fd.Body) {
 			continue
 		}
-		if containsNode(as.Rhs[0], func(n ast.Node) bool {
-			call, ok := n.(*ast.CallExpr)
-			return ok && isCallTo(info, call, start)
-		}) {
-			startStmt = s
-			if id, ok := as.Lhs[0].(*ast.Ident); ok {
-				tokVar = info.ObjectOf(id)
+		nOwners++
+		key := declName(root, fd) + "#tokenizer-released"
+		var startStmt ast.Stmt
+		var tokVar types.Object
+		var list []ast.Stmt
+		// the creating statement, at any block level
+		ast.Inspect(fd.Body, func(x ast.Node) bool {
+			blk, ok := x.(*ast.BlockStmt)
+			if !ok || startStmt != nil {
+				return true
+			}
+			for _, st := range blk.List {
+				as, ok := st.(*ast.AssignStmt)
+				if !ok || len(as.Lhs) != 1 || len(as.Rhs) != 1 || !creates(as.Rhs[0]) {
+					continue
+				}
+				if id, ok := as.Lhs[0].(*ast.Ident); ok {
+					startStmt, tokVar, list = st, info.ObjectOf(id), blk.List
+					break
+				}
+			}
+			return true
+		})
+		if startStmt == nil || tokVar == nil {
+			c.Undecided(key, fd.Pos(), "the function starts a tokenizer but does not keep it in a variable")
+			continue
+		}
+		var next ast.Stmt
+		for i, st := range list {
+			if st == startStmt && i+1 < len(list) {
+				next = list[i+1]
 			}
 		}
-	}
-	if startStmt == nil || tokVar == nil {
-		c.Undecided(key, parse.Pos(), "start of the tokenizer not found in Parse")
-		return
-	}
-	var next ast.Stmt
-	for i, s := range parse.Body.List {
-		if s == startStmt && i+1 < len(parse.Body.List) {
-			next = parse.Body.List[i+1]
-		}
-	}
-	d, isDefer := next.(*ast.DeferStmt)
-	released := false
-	why := "the statement behind the start of the tokenizer is not a defer"
-	if isDefer {
-		why = "the deferred call does not drain the token channel with a blocking receive-until-closed loop"
-		// the deferred function: method of the tokenizer whose body is `for range t.tok {}`
-		var body *ast.BlockStmt
-		var binfo = info
-		switch f := ast.Unparen(d.Call.Fun).(type) {
-		case *ast.FuncLit:
-			body = f.Body
-		default:
-			if cal := Callee(info, d.Call); cal != nil {
-				sig := cal.Type().(*types.Signature)
-				recv := ""
-				if sig.Recv() != nil {
-					if nm := namedOf(sig.Recv().Type()); nm != nil {
-						recv = nm.Obj().Name()
+		d, isDefer := next.(*ast.DeferStmt)
+		released := false
+		why := "the statement behind the start of the tokenizer is not a defer"
+		if isDefer {
+			why = "the deferred call does not drain the token channel with a blocking receive-until-closed loop"
+			// the deferred function: method of the tokenizer whose body is `for range t.tok {}`
+			var body *ast.BlockStmt
+			switch f := ast.Unparen(d.Call.Fun).(type) {
+			case *ast.FuncLit:
+				body = f.Body
+			default:
+				if cal := Callee(info, d.Call); cal != nil {
+					sig := cal.Type().(*types.Signature)
+					recv := ""
+					if sig.Recv() != nil {
+						if nm := namedOf(sig.Recv().Type()); nm != nil {
+							recv = nm.Obj().Name()
+						}
+					}
+					if dd := c.FuncDecl(root, recv, cal.Name()); dd != nil {
+						body = dd.Body
 					}
 				}
-				if fd := c.FuncDecl(root, recv, cal.Name()); fd != nil {
-					body = fd.Body
-				}
+			}
+			if body != nil {
+				released = blockingDrain(info, body)
 			}
 		}
-		if body != nil {
-			released = blockingDrain(binfo, body)
-		}
+		c.Check(released, key, startStmt.Pos(), fd.Name.Name+" defers a blocking drain of the token channel directly behind the start of the tokenizer: on every exit the goroutine can run to its end", "the tokenizer goroutine sends on an unbuffered channel without alternative, so it only ends if every token is received; "+why+": every call of "+fd.Name.Name+" that stops reading early (syntax error, trailing token, a test of the first tokens only) leaves one goroutine blocked forever")
 	}
-	c.Check(released, key, startStmt.Pos(), "Parse defers a blocking drain of the token channel directly behind the start of the tokenizer: on every exit the goroutine can run to its end", "the tokenizer goroutine sends on an unbuffered channel without alternative, so it only ends if every token is received; "+why+": every Parse that stops early (syntax error, trailing token) leaves one goroutine blocked forever")
+	if nOwners == 0 {
+		c.Undecided("parser2#tokenizer-owners", token.NoPos, "no function that starts a tokenizer found (Parser.Parse expected)")
+	}
+	_ = parse
 }
 
 // blockingDrain: the body consists of a loop that receives from a channel
@@ -544,4 +607,89 @@ func ruleR124(c *Ctx) {
 		c.Undecided("value#spawns", token.NoPos, "no go statement found in evaluation code (multiUse should start its consumers)")
 	}
 	_ = strings.Join
+}
+
+// ---------------------------------------------------------------------------
+// R12.5 pulled iterators are stopped.
+//
+// next, stop := iter.Pull(seq) / iter.Pull2(seq) starts a coroutine (a
+// goroutine) that runs the push iterator; it ends only when the sequence is
+// exhausted or stop is called. Every path from the Pull to an exit of the
+// function has to pass a call of stop, or stop has to be deferred. (The
+// pinned tree does not use iter.Pull; the rule is armed for the day it does.)
+
+func ruleR125(c *Ctx) {
+	n := 0
+	for _, pkg := range c.RepoPkgs {
+		if strings.Contains(pkg.PkgPath, "/example") || strings.HasSuffix(pkg.PkgPath, "/gen") {
+			continue
+		}
+		info := pkg.TypesInfo
+		forEachFuncBody([]*packages.Package{pkg}, func(pkg *packages.Package, fn ast.Node, body *ast.BlockStmt) {
+			k := 0
+			inspectNoLit(body, func(x ast.Node) bool {
+				as, ok := x.(*ast.AssignStmt)
+				if !ok || len(as.Rhs) != 1 || len(as.Lhs) != 2 {
+					return true
+				}
+				call, ok := ast.Unparen(as.Rhs[0]).(*ast.CallExpr)
+				if !ok {
+					return true
+				}
+				cal := Callee(info, call)
+				if cal == nil || cal.Pkg() == nil || cal.Pkg().Path() != "iter" || (cal.Name() != "Pull" && cal.Name() != "Pull2") {
+					return true
+				}
+				n++
+				k++
+				key := fmt.Sprintf("%s#iter.%s[%d]", c.FuncName(fn)+litSuffix(c, fn), cal.Name(), k)
+				sid, ok := as.Lhs[1].(*ast.Ident)
+				if !ok || sid.Name == "_" {
+					c.Violation(key, as.Pos(), "the stop function of iter.%s is discarded: the coroutine that runs the sequence is never released unless the sequence is read to its end", cal.Name())
+					return true
+				}
+				sobj := info.ObjectOf(sid)
+				callsStop := func(y ast.Node) bool {
+					return containsNodeDeep(y, func(z ast.Node) bool {
+						cc, ok := z.(*ast.CallExpr)
+						if !ok {
+							return false
+						}
+						id, ok := ast.Unparen(cc.Fun).(*ast.Ident)
+						return ok && info.ObjectOf(id) == sobj
+					})
+				}
+				deferred := false
+				inspectNoLit(body, func(y ast.Node) bool {
+					if d, ok := y.(*ast.DeferStmt); ok && callsStop(d) {
+						deferred = true
+					}
+					return true
+				})
+				if deferred {
+					c.OK(key, as.Pos(), "stop is deferred")
+					return true
+				}
+				g := c.CFG(fn)
+				if g == nil {
+					c.Undecided(key, as.Pos(), "no control flow graph")
+					return true
+				}
+				found, trail := g.PathAvoiding(as, nil, callsStop)
+				if found {
+					where := ""
+					if len(trail) > 0 {
+						where = " (e.g. the exit at " + c.posStr(trail[len(trail)-1].Pos()) + ")"
+					}
+					c.Violation(key, as.Pos(), "there is a path from iter.%s to an exit of the function that does not call stop%s: if the pulled sequence still has items there, the coroutine goroutine that runs it stays suspended for ever", cal.Name(), where)
+				} else {
+					c.OK(key, as.Pos(), "every path to an exit of the function calls stop")
+				}
+				return true
+			})
+		})
+	}
+	if n == 0 {
+		c.Note("repo#iter.Pull", token.NoPos, "iter.Pull/Pull2 is not used")
+	}
 }
